@@ -212,10 +212,13 @@ impl ExtraAccountMetaList {
         program_id: &Pubkey,
         data: &[u8],
     ) -> Result<(), ProgramError> {
-        let state = TlvStateBorrowed::unpack(data).unwrap();
+        let state = TlvStateBorrowed::unpack(data)?;
         let extra_meta_list = ExtraAccountMetaList::unpack_with_tlv_state::<T>(&state)?;
 
-        let initial_accounts_len = account_infos.len() - extra_meta_list.len();
+        let initial_accounts_len = account_infos
+            .len()
+            .checked_sub(extra_meta_list.len())
+            .ok_or(AccountResolutionError::NotEnoughAccounts)?;
 
         // Convert to `AccountMeta` to check resolved metas
         let provided_metas = account_infos
